@@ -39,7 +39,46 @@ META = {
 }
 
 
+def flow_adapter(rep):
+    """the flow handed to the Petri-net builder is the caller's flow: an explicit 0 (reaction present but unused) stays 0; the default multiplicity
+    applies only to reactions the flow does not mention"""
+    from ..rules.falsy_default import falsy_numeric_defaults
+    fi = rep.f(RZ, "hypergraph_to_pr_inputs")
+    bad = falsy_numeric_defaults(fi.node)
+    rep.ob("O20.4", "R15", fi, not bad, alpha(bad[0][0], fi.node) if bad else "flow_map[eid] = int(flow[eid]) if eid in flow else 1",
+           "each reaction fires exactly as often as the given flow prescribes (the default is chosen by presence of the entry, not by its truthiness)" +
+           (": " + bad[0][1] if bad else ""), node=bad[0][0] if bad else fi.node)
+    # every store into the outgoing flow map: the caller's value under a membership test, or the default otherwise
+    defs = local_defs(fi.node)
+    rets = returns_of(fi.node)
+    FM = norm(rets[-1].value.elts[2]) if rets and isinstance(rets[-1].value, ast.Tuple) and len(rets[-1].value.elts) == 3 else None
+    FL = fi.params[1] if len(fi.params) > 1 else None
+    stores = [(t, v, st) for t, v, st in assigned_subscripts(fi.node) if FM and norm(t.value) == FM]
+    rep.need("R15", len(stores), 1, "stores into the outgoing flow map")
+    pm = parent_map(fi.node)
+    for t, v, st in stores:
+        leaves = []
+
+        def collect(e, conds):
+            if isinstance(e, ast.IfExp):
+                collect(e.body, conds + [(e.test, True)])
+                collect(e.orelse, conds + [(e.test, False)])
+            else:
+                leaves.append((e, conds))
+        collect(v, list(guards_of(pm, st, fi.node, early=True)))
+        for e, conds in leaves:
+            uses_flow = FL is not None and any(isinstance(x, ast.Name) and x.id == FL for x in ast.walk(e))
+            member = any(isinstance(t_, ast.Compare) and isinstance(t_.ops[0], ast.In) and s_ and norm(t_.comparators[0]) == FL for t_, s_ in conds
+                         for t_ in ([t_] if not isinstance(t_, ast.BoolOp) else t_.values))
+            if uses_flow:
+                okv = member and norm(e).replace(" ", "") in (f"int({FL}[{norm(t.slice)}])", f"{FL}[{norm(t.slice)}]")
+                rep.ob("O20.4", "R15", fi, True if okv else None, alpha(st, fi.node)[:80], "a reaction named in the flow gets exactly its prescribed multiplicity", node=st)
+
+
 def run(rep):
+    rep.run(flow_adapter)
+    from ..rules import walk as _W
+    rep.run(_W.writer_sides_independent, "O20.1")
     table = W.writer_table(rep.repo)
     rep.extra["writer_role_table"] = table
     rep.run(preds, table)
